@@ -1624,6 +1624,9 @@ impl System for SrvCfg {
     fn needs_clean_fds(&self) -> bool {
         true
     }
+    fn replay_of(&self, path: &[SAct]) -> Value {
+        self.replay_json(path)
+    }
     fn run(&self, path: &[SAct]) -> Outcome<SAct> {
         let w = self.execute(path, false, self.kill_switch);
         let key = w.key();
